@@ -200,6 +200,9 @@ func GenDataset(r *Rng, w Window, lookback int64, maxSeries int, hostile, withHi
 				ls[ln] = Pick(r, labelValues)
 			}
 		}
+		if r.P(0.08) {
+			ls["Z"] = Pick(r, labelValues) // upper-case names sort before __name__
+		}
 		d.Series = append(d.Series, Series{Labels: ls, Samples: GenSamples(r, w, lookback, hostile)})
 	}
 	if withHist {
